@@ -422,18 +422,32 @@ func checkCommand(run *vk.Run, a *Authority, st *nodeState, c CmdSpec, at time.T
 		}
 		if broken != "" {
 			shape := c.Kind
+			rootKeyBefore := false
+			for _, n := range namesBefore {
+				rootKeyBefore = rootKeyBefore || n == rootName
+			}
 			switch {
 			case c.Kind == "bootstrap" && c.Ow:
 				shape = "bootstrap-overwrite"
-			case c.Kind == "bootstrap" && len(namesBefore) == 0:
+			case c.Kind == "bootstrap" && !rootKeyBefore:
+				// (the root key was wiped; a refused rotation in between may have left a stray signing key)
 				shape = "bootstrap-after-key-wipeout"
 			case c.Kind == "bootstrap":
 				shape = "bootstrap-over-live-keys"
 			case c.Kind == "rotate" && c.Serial != 0:
 				shape = "rotate-serial-override"
 			}
+			if st.rebootOverRotated && c.Kind == "rotate" {
+				// (a re-bootstrap over a rotated authority left the rotated key's name and manifest entry behind:
+				// the listed re-bootstrap findings; with --keep_going the stale entry then survives the rotation)
+				shape += ":after-rebootstrap"
+			}
 			viol("keep-going-stale-certificate:"+shape, "%s succeeded with --keep_going but %s", c, broken)
 			st.staleByKeepGoing = true
+		}
+		// (a re-bootstrap over a rotated authority is what it is with and without --keep_going)
+		if rebootstrap && len(st.epochRot) > 0 {
+			st.rebootOverRotated = true
 		}
 		if c.Kind == "bootstrap" {
 			st.boots++
